@@ -27,7 +27,8 @@ EXTENDS Random, TLC, Json
 
 CONSTANTS LN,      \* log2 of the number of cells per axis (2: a 4 x 4 x 4 grid)
           G,       \* variate grid of the emitted cases: k / G, k \in 0..G
-          Emit
+          Emit,
+          Full     \* TRUE: every point relation for both component types; FALSE: alternating
 
 N == Pow2Small(LN)
 Fine == 32
@@ -58,37 +59,37 @@ PickCase  == /\ phase = "blk-case" /\ phase' = "case" /\ UNCHANGED <<last, sh>>
              /\ \E k2, k3, k4 \in 0..G : c' = <<c[1], k2, k3, k4>>
 
 -----------------------------------------------------------------------------
-(* numbers *)
+(* numbers (products through FxMulZ of Random.tla, which an assumption below compares with the library's FxMul) *)
 GridDy(m, lg) == DyMulPow2(DyFromInt(m), -lg)            \* m / 2^lg
 GridFx(m, lg) == FxOfDy(GridDy(m, lg))
 Geo == IF sh = "bicone" THEN "bicone" ELSE "cone"
 NodeOf == CASE sh = "cone" -> "hsv" [] sh = "bicone" -> "hsl" [] sh = "hwb" -> "hwb" [] OTHER -> "srgb"
 
 (* 6 * int_a^b R^2 over the cell [a, b] = [m/2N, (m+2)/2N] by Simpson's rule (half steps: log2 = LN + 1) *)
-R2(geo, m) == FxSqr(Radius(geo, GridFx(m, LN + 1)))
-I6(geo, i) == FxMul(GridFx(1, LN), FxAdd(R2(geo, 2 * i), FxAdd(FxShl(R2(geo, 2 * i + 1), 2), R2(geo, 2 * i + 2))))
+R2(geo, m) == FxSqrZ(Radius(geo, GridFx(m, LN + 1)))
+I6(geo, i) == FxMulZ(GridFx(1, LN), FxAdd(R2(geo, 2 * i), FxAdd(FxShl(R2(geo, 2 * i + 1), 2), R2(geo, 2 * i + 2))))
 RECURSIVE SumI6(_, _)
 SumI6(geo, i) == IF i < 0 THEN FxZero ELSE FxAdd(I6(geo, i), SumI6(geo, i - 1))
 (* 6 * int_c^d s ds *)
-J6(j) == FxMul(GridFx(1, LN), FxAdd(GridFx(2 * j, LN + 1), FxAdd(FxShl(GridFx(2 * j + 1, LN + 1), 2), GridFx(2 * j + 2, LN + 1))))
+J6(j) == FxMulZ(GridFx(1, LN), FxAdd(GridFx(2 * j, LN + 1), FxAdd(FxShl(GridFx(2 * j + 1, LN + 1), 2), GridFx(2 * j + 2, LN + 1))))
 RECURSIVE SumJ6(_)
 SumJ6(j) == IF j < 0 THEN FxZero ELSE FxAdd(J6(j), SumJ6(j - 1))
 
 (* 36 * volume of cell (i, j, k) (hue in turns) and of the solid *)
-Vol(geo, i, j) == FxMul(FxMul(I6(geo, i), J6(j)), GridFx(1, LN))
-TotalVol(geo) == FxMul(SumI6(geo, N - 1), SumJ6(N - 1))
+Vol(geo, i, j) == FxMulZ(FxMulZ(I6(geo, i), J6(j)), GridFx(1, LN))
+TotalVol(geo) == FxMulZ(SumI6(geo, N - 1), SumJ6(N - 1))
 (* measure of the pre-image of the cell under the inverse-CDF map, and under the coordinate-uniform map *)
 DF(geo, i) == FxSub(HeightCdf(geo, GridFx(i + 1, LN)), HeightCdf(geo, GridFx(i, LN)))
 DS(j) == FxSub(SatCdf(GridFx(j + 1, LN)), SatCdf(GridFx(j, LN)))
-Pre(geo, i, j) == FxMul(FxMul(DF(geo, i), DS(j)), GridFx(1, LN))
-PreCoordinateUniform == FxMul(FxMul(GridFx(1, LN), GridFx(1, LN)), GridFx(1, LN))
+Pre(geo, i, j) == FxMulZ(FxMulZ(DF(geo, i), DS(j)), GridFx(1, LN))
+PreCoordinateUniform == FxMulZ(FxMulZ(GridFx(1, LN), GridFx(1, LN)), GridFx(1, LN))
 
 CellMeasure ==
   phase = "cell" =>
-    /\ FxMul(DF(Geo, c[1]), SumI6(Geo, N - 1)) = I6(Geo, c[1])          \* height marginal = normalised int R^2
-    /\ FxMul(DS(c[2]), SumJ6(N - 1)) = J6(c[2])                          \* saturation marginal = normalised int s
-    /\ FxMul(Pre(Geo, c[1], c[2]), TotalVol(Geo)) = Vol(Geo, c[1], c[2]) \* pre-image measure = volume share
-    /\ FxMul(PreCoordinateUniform, TotalVol(Geo)) # Vol(Geo, c[1], c[2]) \* the coordinate-uniform map: never
+    /\ FxMulZ(DF(Geo, c[1]), SumI6(Geo, N - 1)) = I6(Geo, c[1])          \* height marginal = normalised int R^2
+    /\ FxMulZ(DS(c[2]), SumJ6(N - 1)) = J6(c[2])                          \* saturation marginal = normalised int s
+    /\ FxMulZ(Pre(Geo, c[1], c[2]), TotalVol(Geo)) = Vol(Geo, c[1], c[2]) \* pre-image measure = volume share
+    /\ FxMulZ(PreCoordinateUniform, TotalVol(Geo)) # Vol(Geo, c[1], c[2]) \* the coordinate-uniform map: never
     /\ ~FxIsZero(Vol(Geo, c[1], c[2]))
     (* equal volume, equal measure - against every other cell *)
     /\ \A i, j \in 0..(N - 1) : (Vol(Geo, i, j) = Vol(Geo, c[1], c[2])) => (Pre(Geo, i, j) = Pre(Geo, c[1], c[2]))
@@ -129,7 +130,7 @@ PS == GridFx(c[2], LN)
 HueDy(k) == GridDy(360 * k, LN)
 FxDy(f) == <<f[1], IF f[1] = 0 THEN 0 ELSE -FL, f[2]>>
 (* the colour at (height a, saturation s, hue index k) in the coordinates of the node *)
-Colour(a, s, k) == IF sh = "hwb" THEN <<HueDy(k), FxDy(FxMul(FxSub(FxOne, s), a)), FxDy(FxSub(FxOne, a))>>
+Colour(a, s, k) == IF sh = "hwb" THEN <<HueDy(k), FxDy(FxMulZ(FxSub(FxOne, s), a)), FxDy(FxSub(FxOne, a))>>
                    ELSE <<HueDy(k), FxDy(s), FxDy(a)>>
 Out == Colour(PH, PS, c[3])
 ExactV == <<FxDy(HeightCdf(Geo, PH)), FxDy(SatCdf(PS)), GridDy(c[3], LN)>>
@@ -139,7 +140,9 @@ Std(t, V, out) == Verdict("standard", NodeOf, t, 0, <<>>, <<>>, {V}, out)
 (* the HWB form of a colour of value 0 has no saturation: any saturation variate fits *)
 Detectable == HeightCdf(Geo, PH) # PH \/ (SatCdf(PS) # PS /\ ~(sh = "hwb" /\ c[1] = 0))
 
-AtPoint(P(_)) == phase = "point" => \A t \in FloatTypes : P(t)
+(* both component types at every grid point, or (quick tier) alternating over the points *)
+TS == IF Full THEN FloatTypes ELSE {IF (c[1] + c[2] + c[3]) % 2 = 0 THEN "f32" ELSE "f64"}
+AtPoint(P(_)) == phase = "point" => \A t \in TS : P(t)
 
 (* the exact inverse is accepted, whatever the order of the logged variates *)
 P1(t) == Std(t, ExactV, Out) = "ok" /\ Std(t, Rot(ExactV), Out) = "ok" /\ Std(t, Rot(Rot(ExactV)), Out) = "ok"
